@@ -19,12 +19,14 @@ from .values import SBool, SFloat, SInt, SNum, SOpt, SV, Unsupported, V, to_int_
 
 
 class LoopSpec:
-    def __init__(self, invariant, types=None, decreases=None, note=None, ghost=None, modifies_series=None, modifies_fields=None):
+    def __init__(self, invariant, types=None, decreases=None, note=None, ghost=None, modifies_series=None, modifies_fields=None, modifies_heap=None, write_frame=None):
         self.invariant = invariant  # label -> clause (may use `it`, locals, function parameters, old(...))
         self.types = types or {}  # havocked variable -> type string
         self.decreases = decreases
         self.ghost = ghost or {}
         self.modifies_series = modifies_series or []  # [(series expr, key expr)]: reading keys the body may write
+        self.write_frame = write_frame  # (store expr, [local names]): candle fields may only be written on those candles
+        self.modifies_heap = modifies_heap or []  # expressions evaluating to heap lists / the candle store the body may change
         self.modifies_fields = modifies_fields or []  # [(object expr, field, type)]: object fields the body may assign
 
 
@@ -46,6 +48,17 @@ def assigned_names(stmts):
 
 
 def fresh_like(name, ty, cur):
+    if ty == "hlist":
+        return cur  # heap lists are havocked in place (see run_loop)
+    if ty in ("datetime", "timedelta"):
+        from .timevals import DateTimeV, TimeDeltaV
+
+        t = z3.Int(fresh_name(name))
+        return DateTimeV(t, 0) if ty == "datetime" else TimeDeltaV(t, 0)
+    if ty == "hcandle":
+        from .store import HCandle
+
+        return HCandle(cur.store, z3.Int(fresh_name(name)))
     nm = fresh_name(name)
     if ty is None:
         if isinstance(cur, bool) or isinstance(cur, SBool):
@@ -96,6 +109,19 @@ def run_loop(ex, node, st, spec, cond_fn, bind_fn, n_term, keep_fn, label):
     frame = st.frames[-1]
     names = [n for n in assigned_names(node.body) if n in frame or n in spec.types]
     env0 = lambda s, it: dict(getattr(ex.ctx, 'ghost_env', {}), **dict(s.frames[-1], it=SInt(it) if z3.is_expr(it) else it))
+    # a concrete list of heap candles that the loop goes on appending to becomes a symbolic heap list
+    from .store import HCandle, HListP
+    from .state import ListP
+
+    for nme, ty in spec.types.items():
+        cur = st.frames[-1].get(nme)
+        if ty == "hlist" and isinstance(cur, vals.Ref) and isinstance(st.heap[cur.oid], ListP):
+            items = st.heap[cur.oid].items
+            if items and all(isinstance(x, HCandle) for x in items):
+                hl = HListP(fresh_name(nme), items[0].store, lo=z3.IntVal(0), hi=z3.IntVal(len(items)))
+                for pos, x in enumerate(items):
+                    hl.arr = z3.Store(hl.arr, pos, x.i)
+                st.heap[cur.oid] = hl
     entry = st.fork()  # old(...) in invariants refers to the state at loop entry
 
     def SE(s, it):
@@ -108,9 +134,14 @@ def run_loop(ex, node, st, spec, cond_fn, bind_fn, n_term, keep_fn, label):
 
     def havoc(s):
         for nme in names:
+            if spec.types.get(nme) == "hcandle":
+                from .store import HCandle
+
+                s.frames[-1][nme] = HCandle(ex.ctx.ghost_env["cs"], z3.Int(fresh_name(nme)))
+                continue
             s.frames[-1][nme] = fresh_like(nme, spec.types.get(nme), s.frames[-1].get(nme))
         for ser_src, key_src in spec.modifies_series:
-            ev = SpecEval(ex, s, dict(s.frames[-1]))
+            ev = SpecEval(ex, s, env0(s, 0))
             ser, key = ev.ev(ser_src), ev.ev(key_src)
             p = s.heap[ser.oid]
             allowed.add(ser.oid)
@@ -118,8 +149,18 @@ def run_loop(ex, node, st, spec, cond_fn, bind_fn, n_term, keep_fn, label):
             for kk in keys:
                 for which in ("I", "S"):
                     p.havoc_all(which, kk, fresh_name("loop"))
+        for nme, ty in spec.types.items():
+            if ty == "hlist":
+                cur = s.frames[-1].get(nme)
+                if isinstance(cur, vals.Ref):
+                    allowed.add(cur.oid)
+                    s.heap[cur.oid].havoc(fresh_name("loop"))
+        for h_src in spec.modifies_heap:
+            r = SpecEval(ex, s, env0(s, 0)).ev(h_src)
+            allowed.add(r.oid)
+            s.heap[r.oid].havoc(fresh_name("loop"))
         for obj_src, fld, ty in spec.modifies_fields:
-            o = SpecEval(ex, s, dict(s.frames[-1])).ev(obj_src)
+            o = SpecEval(ex, s, env0(s, 0)).ev(obj_src)
             allowed.add(o.oid)
             s.heap[o.oid].fields[fld] = fresh_like(fld, ty, s.heap[o.oid].fields.get(fld))
 
@@ -143,10 +184,16 @@ def run_loop(ex, node, st, spec, cond_fn, bind_fn, n_term, keep_fn, label):
     if ex.ctx.feasible(body_st):
         gens = _heap_gens(body_st)
         bind_fn(body_st, it)
+        if spec.write_frame is not None:
+            cs_ref = SpecEval(ex, body_st, env0(body_st, it)).ev(spec.write_frame[0])
+            body_st.heap[cs_ref.oid].allowed = list(spec.write_frame[1])
         for st1, sig in ex.exec_block(node.body, body_st):
             for oid, g in _heap_gens(st1).items():
                 if oid in gens and gens[oid] != g and oid not in allowed:
                     raise Unsupported("heap modification inside an invariant-cut loop (declare it in the loop spec)")
+            if spec.write_frame is not None:
+                cs_ref1 = SpecEval(ex, st1, env0(st1, it)).ev(spec.write_frame[0])
+                st1.heap[cs_ref1.oid].allowed = None
             if sig[0] in ("next", "continue"):
                 for lab, src in spec.invariant.items():
                     oblige_spec(ex, st1, "inv-preserve", f"{label}:{lab}", SE(st1, it + 1).ev(src), node)
